@@ -27,6 +27,7 @@ META = {
     "(one named site + reason each); callee resolution over-approximates inside liquid2 and treats third-party "
     "callees as opaque except for the catalogued ones.",
 }
+META["technique"] += '; unconverted-operand dataflow (sa/rawflow.py: object/Any parameters used in ordering/arithmetic before any conversion); token= argument type lint on LiquidError constructors; non-negative-digits guard for round()'
 
 # (function qualname, site text) -> reason.  One named site each; never a wildcard.
 EXEMPT: dict[tuple[str, str], str] = {
@@ -306,6 +307,28 @@ def _power_guard_rule(prog: Program, res: Result) -> None:
                 res.fail("C02.R9", file=fi.file, line=p.lineno, qualname=fi.qualname, construct=f"{fi.qualname}: power with an unbounded exponent", message=f"{fi.qualname} computes `{norm(p)}` without a dominating test that bounds `{norm(p.right)}` itself: an exponent-form literal such as `1e3000000` costs seconds and megabytes for ten characters, and the result fails later with a bare ValueError when it is printed", what=what)
     res.floor("C02.R9", "functions scanned for powers", n, 900)
     res.floor("C02.R9", "powers with a non-constant exponent", n_pow, 1)
+    # round(x, d) with a negative d builds 10**(-d): the same hidden power. The digits argument must be known non-negative where round() has two arguments.
+    from checks.C15 import _path_condition
+    from checks.C17 import _known_leaves
+
+    n_round = 0
+    for fi in sorted(prog.all_functions(), key=lambda f: (f.file, f.node.lineno)):
+        for c in ast.walk(fi.node):
+            if not (isinstance(c, ast.Call) and isinstance(c.func, ast.Name) and c.func.id == "round" and len(c.args) == 2 and prog.enclosing_function(fi.module, c) is fi):
+                continue
+            n_round += 1
+            d = c.args[1]
+            site = f"{fi.file}:{c.lineno} {fi.qualname}"
+            what = f"{fi.qualname}: `{norm(c)}` rounds to a non-negative number of digits"
+            ok_ = isinstance(d, ast.Constant) and isinstance(d.value, int) and d.value >= 0
+            if isinstance(d, ast.Name):
+                known = [kl for t_, pol_ in _path_condition(fi.module, fi.node, c) for kl in _known_leaves(t_, pol_)]
+                ok_ = any((txt == f"{d.id} < 0" and not v) or (txt in (f"{d.id} >= 0", f"{d.id} > 0") and v) or (txt == f"{d.id} <= 0" and not v) for txt, v in known)
+            if ok_:
+                res.ok("C02.R9", site, what, "behind a test that turns negative digits away")
+            else:
+                res.fail("C02.R9", file=fi.file, line=c.lineno, qualname=fi.qualname, construct=f"{fi.qualname}: round() with possibly negative digits", message=f"{fi.qualname} calls `{norm(c)}` where `{norm(d)}` may be negative: round(int, -n) computes 10**n, and n comes from the template (`{{{{ 5 | round: -99999999 }}}}`) - time and memory exponential in the length of the argument's text, ending in MemoryError", what=what)
+    res.floor("C02.R9", "two-argument round() calls", n_round, 1)
 
 
 def _bare_names(e: ast.AST) -> list[str]:
@@ -360,6 +383,58 @@ def _none_flow_rule(prog: Program, res: Result) -> None:
     res.ok("C02.R11", "liquid2/**", f"{n} functions: no possibly-None local is dereferenced or returned against the annotation", "forward may-be-None analysis with test refinement; positive example matched twice")
     res.floor("C02.R11", "functions analysed for None flow", n, 900)
 
+def _error_token_rule(prog: Program, res: Result, E: Escapes) -> None:
+    """C02.R13: what an error carries as its token is a token. LiquidError.__str__ / detailed_message() / context() read
+    token.start, token.source and token.stop; handed an argument object, an expression or a string they raise AttributeError when the
+    error is turned into text - after the LiquidError was raised, where nothing converts it."""
+    res.rule("C02.R13", "every `token=` argument of a LiquidError constructor is a token: None, an expression the declared types resolve to a token class (TokenT, Token, TagToken, …), or - where no type is declared - a name or attribute called *token* / a token-stream read; an argument wrapper, expression or string there makes str(error) raise AttributeError")
+    T = E.types
+    base = prog.cls("liquid2.exceptions.LiquidError")
+    n = 0
+
+    def token_shaped(e: ast.AST) -> bool:
+        if isinstance(e, ast.Constant):
+            return e.value is None
+        if isinstance(e, ast.Name):
+            return "tok" in e.id.lower()
+        if isinstance(e, ast.Attribute):
+            return "tok" in e.attr.lower()
+        if isinstance(e, ast.BoolOp):
+            return all(token_shaped(v) for v in e.values)
+        if isinstance(e, ast.IfExp):
+            return token_shaped(e.body) and token_shaped(e.orelse)
+        if isinstance(e, ast.Call):
+            q = (dotted(e.func) or "").split(".")[-1]
+            return q in ("current", "next", "peek", "eat", "expect", "into_inner") or q.endswith("Token")
+        return False
+
+    for fi in sorted(prog.all_functions(), key=lambda f: (f.file, f.node.lineno)):
+        for c in E._own(fi.node):
+            if not isinstance(c, ast.Call):
+                continue
+            q = (dotted(c.func) or "").split(".")[-1]
+            ci = next((k for m in prog.modules.values() for k in m.classes.values() if k.name == q), None) if q and q[0].isupper() else None
+            if ci is None or not prog.is_subclass(ci, base):
+                continue
+            for k in c.keywords:
+                if k.arg != "token":
+                    continue
+                n += 1
+                t = T.of(fi, k.value)
+                site = f"{fi.file}:{c.lineno} {fi.qualname}"
+                what = f"{fi.qualname}: {q}(token=…) is given a token"
+                if t is not None:
+                    parts = [p.strip() for p in t.split("|")]
+                    ok = all(p == "None" or p == "TokenT" or p.endswith("Token") for p in parts)
+                else:
+                    ok = token_shaped(k.value)
+                if ok:
+                    res.ok("C02.R13", site, what, f"`{norm(k.value, 40)}`: {t or 'token-shaped, no declared type'}")
+                else:
+                    res.fail("C02.R13", file=fi.file, line=c.lineno, qualname=fi.qualname, construct=f"{fi.qualname}: {q}(token={norm(k.value, 30)}) is not a token", message=f"{fi.qualname} raises {q} with token=`{norm(k.value, 50)}` ({t or 'no token type'}): str(error), detailed_message() and context() read .start / .source of it and raise AttributeError - the LiquidError cannot be turned into a message", what=what)
+    res.floor("C02.R13", "token= arguments of LiquidError constructors", n, 150)
+
+
 def run(prog: Program, res: Result) -> None:  # noqa: PLR0912, PLR0915
     res.explanation = (
         "escapes(f) = catalogue sites and explicit raises in f not caught by an enclosing handler, plus the escapes of every "
@@ -391,6 +466,7 @@ def run(prog: Program, res: Result) -> None:  # noqa: PLR0912, PLR0915
     res.floor("C02", "entry points", len(roots), 20)
     res.floor("C02", "LiquidError message methods", len(err_methods), 3)
     E.compute([f for _, f in roots + err_methods])
+    _error_token_rule(prog, res, E)
     res.stats.update({"reachable_functions": len(E.reachable), "catalogue_sites": E.n_sites, "calls": E.n_calls, "calls_resolved": E.n_resolved, "fixpoint_rounds": E.rounds, "exempted_sites": len(E.exempted)})
     res.floor("C02", "reachable functions", len(E.reachable), 400)
     res.floor("C02", "catalogue sites", E.n_sites, 150)
